@@ -31,7 +31,7 @@ namespace ob=ompl::base; namespace og=ompl::geometric;
 template<class P> ob::PlannerPtr mk(const ob::SpaceInformationPtr&si){ return std::make_shared<P>(si); }
 int main(int argc,char**argv){
   ompl::msg::setLogLevel(ompl::msg::LOG_NONE);
-  ompl::RNG::setSeed(12345);
+  ompl::RNG::setSeed(argc>3?atoi(argv[3]):12345);
   const char*which=argv[1]; int iters=argc>2?atoi(argv[2]):3000;
   auto space=std::make_shared<ob::RealVectorStateSpace>(2); space->setBounds(0,1);
   auto si=std::make_shared<ob::SpaceInformation>(space);
